@@ -41,9 +41,9 @@ run_demo() { # returns 0 if the demo passes
     rm -f "$d/zz_demo_test.go"
     return $rc
   elif [ -d "$SD/demo$X" ]; then
-    rm -rf "$SCR/zzdemo"; cp -r "$SD/demo$X" "$SCR/zzdemo"
-    (cd "$SCR" && timeout -s KILL 600 go run -race ./zzdemo >"$SCR/demo.out" 2>&1); rc=$?
-    rm -rf "$SCR/zzdemo"
+    rm -rf "$SCR/SEEDED"; mkdir -p "$SCR/SEEDED"; cp -r "$SD/demo$X" "$SCR/SEEDED/demo$X"
+    (cd "$SCR" && timeout -s KILL 900 go run -race ./SEEDED/demo$X >"$SCR/demo.out" 2>&1); rc=$?
+    rm -rf "$SCR/SEEDED"
     return $rc
   fi
   echo "no demo found" >"$SCR/demo.out"; return 99
